@@ -36,75 +36,330 @@ theorem depsFirst_append_singleton {g : Graph} {ex l : List Nat} {x : Nat}
     have := List.append_inj' h' rfl
     exact h pre y post' this.1 d hd
 
-/-- what one `add_with_deps` / one dependency loop does to the pair (old plan, early plan) -/
-structure Spec (g : Graph) (ex : List Nat) (r : Nat → Nat) (u u' : UP) (bound : Nat) (targets : List Nat) : Prop where
-  ext : ∃ e, u'.early = u.early ++ e ∧ u'.plan = u.plan.filter (fun x => decide (x ∉ e)) ∧
-        (∀ x ∈ e, r x ≤ bound) ∧ (∀ x ∈ e, x ∉ ex) ∧ (∀ x ∈ e, x ∉ u.early) ∧ e.Nodup ∧ (∀ x ∈ e, (g x).isSome)
-  reached : ∀ t ∈ targets, t ∈ ex ∨ t ∈ u'.early
-  earlyOK : DepsFirst g ex u.early → DepsFirst g ex u'.early
-
-theorem erase_eq_filter {l : List Nat} (h : l.Nodup) (a : Nat) : l.erase a = l.filter (fun x => decide (x ∉ [a])) := by
+theorem erase_eq_filter {l : List Nat} (h : l.Nodup) (a : Nat) :
+    l.erase a = l.filter (fun x => decide (x ∉ [a])) := by
   rw [List.Nodup.erase_eq_filter h]
   apply List.filter_congr
-  intro x _; simp
+  intro x _; simp [bne]; cases h : (x == a) <;> simp_all
 
 theorem filter_not_mem_self {l : List Nat} {a : Nat} (h : a ∉ l) :
     l = l.filter (fun x => decide (x ∉ [a])) := by
   symm; rw [List.filter_eq_self]; intro x hx; simp; intro e; subst e; exact h hx
 
+theorem nodup_filter {l : List Nat} (p : Nat → Bool) (h : l.Nodup) : (l.filter p).Nodup :=
+  List.Nodup.sublist List.filter_sublist h
+
+theorem filter_nil_id (l : List Nat) : l = l.filter (fun x => decide (x ∉ ([] : List Nat))) := by
+  symm; rw [List.filter_eq_self]; intro x _; simp
+
+theorem filter_filter_app (l e f : List Nat) :
+    (l.filter (fun x => decide (x ∉ e))).filter (fun x => decide (x ∉ f)) =
+      l.filter (fun x => decide (x ∉ e ++ f)) := by
+  rw [List.filter_filter]; apply List.filter_congr; intro x _; simp [Bool.and_comm]
+
+/-- what one `add_with_deps` / one dependency loop does to the pair (old plan, early plan):
+    `e` = the statements appended to the early plan -/
+structure Spec (g : Graph) (ex : List Nat) (r : Nat → Nat) (u u' : UP) (rankBound : Nat → Prop)
+    (targets : List Nat) : Prop where
+  ext : ∃ e, u'.early = u.early ++ e ∧ u'.plan = u.plan.filter (fun x => decide (x ∉ e)) ∧
+        (∀ x ∈ e, rankBound (r x)) ∧ (∀ x ∈ e, x ∉ ex) ∧ (∀ x ∈ e, x ∉ u.early) ∧ e.Nodup ∧
+        (∀ x ∈ e, (g x).isSome)
+  reached : ∀ t ∈ targets, t ∈ ex ∨ t ∈ u'.early
+  earlyOK : DepsFirst g ex u.early → DepsFirst g ex u'.early
+
+theorem Spec.refl {g : Graph} {ex : List Nat} {r : Nat → Nat} {u : UP} {rb : Nat → Prop}
+    {targets : List Nat} (h : ∀ t ∈ targets, t ∈ ex ∨ t ∈ u.early) : Spec g ex r u u rb targets :=
+  ⟨⟨[], by simp, filter_nil_id _, by simp, by simp, by simp, by simp, by simp⟩, h, fun h => h⟩
+
 mutual
 theorem addWithDeps_spec {g : Graph} {ex : List Nat} {r : Nat → Nat} {n : Nat} (wf : WF g n r) :
-    ∀ (fuel : Nat) (u : UP) (id : Nat), u.plan.Nodup → (g id).isSome → r id < fuel →
-      ∃ u', addWithDeps g ex fuel u id = .ok u' ∧ Spec g ex r u u' (r id) [id]
+    ∀ (fuel : Nat) (u : UP) (i : Nat), u.plan.Nodup → (g i).isSome → r i < fuel →
+      ∃ u', addWithDeps g ex fuel u i = .ok u' ∧ Spec g ex r u u' (fun k => k ≤ r i) [i]
   | 0, _, _, _, _, h => by omega
-  | fuel+1, u, id, hnd, hk, hr => by
+  | fuel+1, u, i, hnd, hk, hr => by
     unfold addWithDeps
-    cases hg : g id with
+    cases hg : g i with
     | none => simp [hg] at hk
     | some deps =>
       simp only
-      have hdeps : depsOf g id = deps := by simp [depsOf, hg]
-      by_cases hex : id ∈ ex
+      have hdeps : depsOf g i = deps := by simp [depsOf, hg]
+      by_cases hex : i ∈ ex
       · simp only [hex, if_true]
-        exact ⟨u, rfl, ⟨[], by simp, by simp, by simp, by simp, by simp, by simp, by simp⟩, by simp [hex], id⟩
+        exact ⟨u, rfl, Spec.refl (by simp [hex])⟩
       · simp only [hex, if_false]
-        by_cases hea : id ∈ u.early
+        by_cases hea : i ∈ u.early
         · simp only [hea, if_true]
-          exact ⟨u, rfl, ⟨[], by simp, by simp, by simp, by simp, by simp, by simp, by simp⟩, by simp [hea], id⟩
+          exact ⟨u, rfl, Spec.refl (by simp [hea])⟩
         · simp only [hea, if_false]
-          -- the plan with `id` removed, as a filter
-          have hu1 : ∃ u1 : UP, (if id ∈ u.plan then { u with plan := u.plan.erase id } else u) = u1 ∧
-              u1.early = u.early ∧ u1.plan = u.plan.filter (fun x => decide (x ∉ [id])) := by
-            by_cases hp : id ∈ u.plan
+          -- the plan with `i` removed, as a filter
+          have hu1 : ∃ u1 : UP, (if i ∈ u.plan then { u with plan := u.plan.erase i } else u) = u1 ∧
+              u1.early = u.early ∧ u1.plan = u.plan.filter (fun x => decide (x ∉ [i])) := by
+            by_cases hp : i ∈ u.plan
             · exact ⟨_, rfl, by simp [hp], by simp [hp, erase_eq_filter hnd]⟩
             · refine ⟨_, rfl, by simp [hp], ?_⟩
               simp only [hp, if_false]; exact filter_not_mem_self hp
           obtain ⟨u1, hu1e, hu1early, hu1plan⟩ := hu1
           rw [hu1e]
-          have hnd1 : u1.plan.Nodup := by rw [hu1plan]; exact List.Nodup.filter _ hnd
-          have hdk : ∀ d ∈ deps, (g d).isSome ∧ r d < fuel := by
+          have hnd1 : u1.plan.Nodup := by rw [hu1plan]; exact nodup_filter _ hnd
+          have hdk : ∀ d ∈ deps, (g d).isSome ∧ r d < fuel ∧ r d < r i := by
             intro d hd
-            have h1 := wf.closed id hk d (by rw [hdeps]; exact hd)
-            have h2 := wf.decr id d (by rw [hdeps]; exact hd)
-            exact ⟨h1, by omega⟩
-          obtain ⟨u2, h2ok, h2spec⟩ := addList_spec wf fuel u1 deps hnd1 hdk
+            have h1 := wf.closed i hk d (by rw [hdeps]; exact hd)
+            have h2 := wf.decr i d (by rw [hdeps]; exact hd)
+            exact ⟨h1, by omega, h2⟩
+          obtain ⟨u2, h2ok, h2spec⟩ := addList_spec wf fuel u1 deps (r i) hnd1 hdk
           rw [h2ok]
           refine ⟨_, rfl, ?_⟩
           obtain ⟨e, he1, he2, he3, he4, he5, he6, he7⟩ := h2spec.ext
-          have hlt : ∀ x ∈ e, r x < r id := by
-            intro x hx
-            have := he3 x hx
-            simp at this
-            sorry
-          sorry
+          have hie : i ∉ e := fun h => by have := he3 i h; omega
+          refine ⟨⟨e ++ [i], ?_, ?_, ?_, ?_, ?_, ?_, ?_⟩, ?_, ?_⟩
+          · simp [he1, hu1early]
+          · simp only [he2, hu1plan]
+            rw [filter_filter_app]
+            apply List.filter_congr; intro x _; simp [Bool.and_comm]
+          · intro x hx; simp at hx; rcases hx with h | h
+            · have := he3 x h; omega
+            · subst h; exact Nat.le_refl _
+          · intro x hx; simp at hx; rcases hx with h | h
+            · exact he4 x h
+            · subst h; exact hex
+          · intro x hx; simp at hx; rcases hx with h | h
+            · rw [← hu1early]; exact he5 x h
+            · subst h; exact hea
+          · rw [List.nodup_append]; refine ⟨he6, by simp, ?_⟩
+            intro a ha b hb; simp at hb; subst hb; intro e'; subst e'; exact hie ha
+          · intro x hx; simp at hx; rcases hx with h | h
+            · exact he7 x h
+            · subst h; exact hk
+          · intro t ht; simp at ht; subst ht; right; simp
+          · intro hE
+            have hE2 := h2spec.earlyOK (by rw [hu1early]; exact hE)
+            apply depsFirst_append_singleton hE2
+            intro d hd
+            rw [hdeps] at hd
+            exact h2spec.reached d hd
 theorem addList_spec {g : Graph} {ex : List Nat} {r : Nat → Nat} {n : Nat} (wf : WF g n r) :
-    ∀ (fuel : Nat) (u : UP) (ds : List Nat), u.plan.Nodup → (∀ d ∈ ds, (g d).isSome ∧ r d < fuel) →
-      ∃ u', addList g ex fuel u ds = .ok u' ∧ Spec g ex r u u' ((ds.map r).foldl max 0) ds
-  | fuel, u, [], hnd, _ => by
+    ∀ (fuel : Nat) (u : UP) (ds : List Nat) (b : Nat), u.plan.Nodup →
+      (∀ d ∈ ds, (g d).isSome ∧ r d < fuel ∧ r d < b) →
+      ∃ u', addList g ex fuel u ds = .ok u' ∧ Spec g ex r u u' (fun k => k < b) ds
+  | fuel, u, [], b, hnd, _ => by
     unfold addList
-    exact ⟨u, rfl, ⟨[], by simp, by simp, by simp, by simp, by simp, by simp, by simp⟩, by simp, id⟩
-  | fuel, u, d :: ds, hnd, hk => by
-    sorry
+    exact ⟨u, rfl, Spec.refl (by simp)⟩
+  | fuel, u, d :: ds, b, hnd, hk => by
+    unfold addList
+    obtain ⟨hd1, hd2, hd3⟩ := hk d (by simp)
+    obtain ⟨u1, h1ok, h1spec⟩ := addWithDeps_spec wf fuel u d hnd hd1 hd2
+    rw [h1ok]
+    simp only
+    obtain ⟨e1, ha1, ha2, ha3, ha4, ha5, ha6, ha7⟩ := h1spec.ext
+    have hnd1 : u1.plan.Nodup := by rw [ha2]; exact nodup_filter _ hnd
+    obtain ⟨u2, h2ok, h2spec⟩ := addList_spec wf fuel u1 ds b hnd1 (fun x hx => hk x (by simp [hx]))
+    rw [h2ok]
+    refine ⟨u2, rfl, ?_⟩
+    obtain ⟨e2, hb1, hb2, hb3, hb4, hb5, hb6, hb7⟩ := h2spec.ext
+    refine ⟨⟨e1 ++ e2, ?_, ?_, ?_, ?_, ?_, ?_, ?_⟩, ?_, ?_⟩
+    · simp [hb1, ha1]
+    · rw [hb2, ha2, filter_filter_app]
+    · intro x hx; simp at hx; rcases hx with h | h
+      · have := ha3 x h; omega
+      · exact hb3 x h
+    · intro x hx; simp at hx; rcases hx with h | h
+      · exact ha4 x h
+      · exact hb4 x h
+    · intro x hx; simp at hx; rcases hx with h | h
+      · exact ha5 x h
+      · have := hb5 x h; rw [ha1] at this; simp at this; exact this.1
+    · rw [List.nodup_append]; refine ⟨ha6, hb6, ?_⟩
+      intro a ha b' hb' e'; subst e'
+      have := hb5 a hb'; rw [ha1] at this; simp at this; exact this.2 ha
+    · intro x hx; simp at hx; rcases hx with h | h
+      · exact ha7 x h
+      · exact hb7 x h
+    · intro t ht; simp at ht; rcases ht with h | h
+      · subst h
+        rcases h1spec.reached t (by simp) with h' | h'
+        · exact Or.inl h'
+        · right; rw [hb1]; simp [h']
+      · exact h2spec.reached t h
+    · intro hE; exact h2spec.earlyOK (h1spec.earlyOK hE)
 end
+
+end Dagrt.Controller
+
+namespace Dagrt.Controller
+
+theorem depsFirst_nil (g : Graph) (ex : List Nat) : DepsFirst g ex [] := by
+  intro pre x post h; simp at h
+
+/-- concatenation: the second part may also rely on the whole first part -/
+theorem depsFirst_append {g : Graph} {ex a b : List Nat} (ha : DepsFirst g ex a)
+    (hb : ∀ pre x post, b = pre ++ x :: post → ∀ d ∈ depsOf g x, d ∈ ex ∨ d ∈ a ∨ d ∈ pre) :
+    DepsFirst g ex (a ++ b) := by
+  intro pre x post heq d hd
+  rcases List.append_eq_append_iff.mp heq with ⟨a', h1, h2⟩ | ⟨c', h1, h2⟩
+  · -- pre = a ++ a', b = a' ++ x :: post
+    subst h1
+    rcases hb a' x post h2 d hd with h | h | h
+    · exact Or.inl h
+    · right; simp [h]
+    · right; simp [h]
+  · -- a = pre ++ c', x :: post = c' ++ b
+    cases c' with
+    | nil =>
+      simp at h1 h2; subst h1
+      rcases hb [] x post (by simp [h2]) d hd with h | h | h
+      · exact Or.inl h
+      · exact Or.inr h
+      · simp at h
+    | cons y c'' =>
+      simp at h2
+      obtain ⟨hy, _⟩ := h2
+      subst hy
+      exact ha pre x c'' h1 d hd
+
+theorem updatePlan_inv {g : Graph} {r : Nat → Nat} {n : Nat} (wf : WF g n r) {s : St} (hi : Inv g s)
+    (ids : List Nat) (hids : ∀ i ∈ ids, (g i).isSome) :
+    ∃ s' e, updatePlan g n s ids = .ok s' ∧ Inv g s' ∧ s'.executed = s.executed ∧
+      s'.plan = e ++ s.plan.filter (fun x => decide (x ∉ e)) ∧
+      (∀ i ∈ ids, i ∈ s.executed ∨ i ∈ e) := by
+  unfold updatePlan
+  obtain ⟨u', hok, hspec⟩ := addList_spec (ex := s.executed) wf (n + 1) { plan := s.plan, early := [] } ids n
+    hi.nodup (fun d hd => ⟨hids d hd, by have := wf.bound d (hids d hd); omega, wf.bound d (hids d hd)⟩)
+  rw [hok]
+  obtain ⟨e, he1, he2, he3, he4, he5, he6, he7⟩ := hspec.ext
+  simp at he1 he2
+  refine ⟨_, e, rfl, ?_, rfl, by simp [he1, he2], ?_⟩
+  · have hE : DepsFirst g s.executed e := by
+      have := hspec.earlyOK (depsFirst_nil g s.executed); rwa [he1] at this
+    refine ⟨?_, ?_, ?_, ?_⟩
+    · simp only [he1, he2]
+      rw [List.nodup_append]
+      refine ⟨he6, nodup_filter _ hi.nodup, ?_⟩
+      intro a ha b hb e'; subst e'
+      simp at hb; exact hb.2 ha
+    · intro x hx; simp only [he1, he2] at hx; simp at hx
+      rcases hx with h | h
+      · exact he4 x h
+      · exact hi.disj x h.1
+    · simp only [he1, he2]
+      apply depsFirst_append hE
+      intro pre x post hsplit d hd
+      -- x comes from the old plan
+      have hxmem : x ∈ s.plan.filter (fun x => decide (x ∉ e)) := by rw [hsplit]; simp
+      obtain ⟨l1, l2, hl, hf1, hf2⟩ := List.filter_eq_append_iff.mp hsplit
+      obtain ⟨m1, m2, hm, hm1, hm2, hm3⟩ := List.filter_eq_cons_iff.mp hf2
+      subst hm
+      have hold := hi.depsFirst (l1 ++ m1) x m2 (by simp [hl]) d hd
+      rcases hold with h | h
+      · exact Or.inl h
+      · by_cases hde : d ∈ e
+        · exact Or.inr (Or.inl hde)
+        · right; right
+          rw [← hf1]
+          simp at h
+          rcases h with h | h
+          · simp [h, hde]
+          · exact absurd (by simp [hde]) (hm1 d h)
+    · intro x hx; simp only [he1, he2] at hx; simp at hx
+      rcases hx with h | h
+      · exact he7 x h
+      · exact hi.known x h.1
+  · intro i hi'
+    have := hspec.reached i hi'
+    rwa [he1] at this
+
+/-- popping the head of the plan: its dependencies have all been executed -/
+theorem pop_inv {g : Graph} {x : Nat} {rest ex : List Nat} (hi : Inv g { plan := x :: rest, executed := ex }) :
+    Inv g { plan := rest, executed := x :: ex } ∧ (∀ d ∈ depsOf g x, d ∈ ex) ∧ x ∉ ex := by
+  obtain ⟨hnd, hdisj, hdf, hk⟩ := hi
+  simp only at hnd hdisj hdf hk
+  have ⟨hx, hnd'⟩ := List.nodup_cons.mp hnd
+  refine ⟨⟨hnd', ?_, ?_, fun y hy => hk y (by simp [hy])⟩, ?_, hdisj x (by simp)⟩
+  · intro y hy; simp; exact ⟨fun e => hx (e ▸ hy), hdisj y (by simp [hy])⟩
+  · intro pre y post heq d hd
+    rcases hdf (x :: pre) y post (by simp [heq]) d hd with h | h
+    · left; simp [h]
+    · simp at h; rcases h with h | h
+      · left; simp [h]
+      · exact Or.inr h
+  · intro d hd
+    rcases hdf [] x rest (by simp) d hd with h | h
+    · exact h
+    · simp at h
+
+/-- the visit log: no statement twice, each after all its dependencies -/
+def LogOK (g : Graph) (log : List Nat) : Prop := log.Nodup ∧ DepsFirst g [] log
+
+structure LoopInv (g : Graph) (n : Nat) (s : St) (log : List Nat) : Prop where
+  inv : Inv g s
+  exec_eq : ∀ x, x ∈ s.executed ↔ x ∈ log
+  logOK : LogOK g log
+  logKnown : ∀ x ∈ log, (g x).isSome
+
+theorem loop_pop {g : Graph} {n : Nat} {x : Nat} {rest ex log : List Nat}
+    (h : LoopInv g n { plan := x :: rest, executed := ex } log) :
+    LoopInv g n { plan := rest, executed := x :: ex } (log ++ [x]) := by
+  obtain ⟨hi, he, ⟨hlnd, hldf⟩, hlk⟩ := h
+  obtain ⟨hi', hdeps, hx⟩ := pop_inv hi
+  refine ⟨hi', ?_, ⟨?_, ?_⟩, ?_⟩
+  · intro y; simp; rw [← he y]; simp; tauto
+  · rw [List.nodup_append]; refine ⟨hlnd, by simp, ?_⟩
+    intro a ha b hb; simp at hb; subst hb; intro e; subst e
+    exact hx ((he a).mpr ha)
+  · apply depsFirst_append_singleton hldf
+    intro d hd; right; exact (he d).mp (hdeps d hd)
+  · intro y hy; simp at hy; rcases hy with h | h
+    · exact hlk y h
+    · subst h; exact hi.known y (by simp)
+
+theorem runLoop_spec {g : Graph} {r : Nat → Nat} {n : Nat} (wf : WF g n r) (target : Nat → Action)
+    (htarget : ∀ x req, target x = .run req → ∀ i ∈ req, (g i).isSome) :
+    ∀ (fuel : Nat) (s : St) (log : List Nat), LoopInv g n s log →
+      ∃ log' s', runLoop g n target fuel s log = .ok (log', s') ∧ LoopInv g n s' log' ∧
+        (∃ ext, log' = log ++ ext) ∧
+        ((∀ x, target x ≠ .abort) → n < fuel + log.length → (∀ i, (g i).isSome → i < n) → s'.plan = [])
+  | 0, s, log, h => by
+    refine ⟨log, s, rfl, h, ⟨[], by simp⟩, ?_⟩
+    intro _ hf hb
+    -- the log has no duplicates and only known ids, so it cannot be longer than n
+    have hsub : log ⊆ List.range n := by
+      intro x hx; simp; exact hb x (h.logKnown x hx)
+    have := List.Nodup.length_le_of_subset h.logOK.1 hsub
+    simp at this; omega
+  | fuel+1, s, log, h => by
+    obtain ⟨plan, ex⟩ := s
+    unfold runLoop
+    cases plan with
+    | nil => exact ⟨log, _, rfl, h, ⟨[], by simp⟩, fun _ _ _ => rfl⟩
+    | cons x rest =>
+      simp only
+      have h1 := loop_pop h
+      cases ht : target x with
+      | skip =>
+        simp only
+        obtain ⟨log', s', hok, hinv, ⟨ext, hext⟩, hfin⟩ := runLoop_spec wf target htarget fuel _ _ h1
+        refine ⟨log', s', hok, hinv, ⟨[x] ++ ext, by simp [hext]⟩, ?_⟩
+        intro ha hf hb; exact hfin ha (by simp; omega) hb
+      | abort =>
+        simp only
+        refine ⟨_, _, rfl, h1, ⟨[x], rfl⟩, ?_⟩
+        intro ha; exact absurd ht (ha x)
+      | run req =>
+        cases req with
+        | nil =>
+          simp only
+          obtain ⟨log', s', hok, hinv, ⟨ext, hext⟩, hfin⟩ := runLoop_spec wf target htarget fuel _ _ h1
+          refine ⟨log', s', hok, hinv, ⟨[x] ++ ext, by simp [hext]⟩, ?_⟩
+          intro ha hf hb; exact hfin ha (by simp; omega) hb
+        | cons q qs =>
+          simp only
+          obtain ⟨s2, e, hup, hinv2, hex2, hplan2, hreach2⟩ :=
+            updatePlan_inv wf h1.inv (q :: qs) (htarget x (q :: qs) ht)
+          rw [hup]
+          simp only
+          have h2 : LoopInv g n s2 (log ++ [x]) :=
+            ⟨hinv2, by intro y; rw [hex2]; exact h1.exec_eq y, h1.logOK, h1.logKnown⟩
+          obtain ⟨log', s', hok, hinv, ⟨ext, hext⟩, hfin⟩ := runLoop_spec wf target htarget fuel _ _ h2
+          refine ⟨log', s', hok, hinv, ⟨[x] ++ ext, by simp [hext]⟩, ?_⟩
+          intro ha hf hb; exact hfin ha (by simp; omega) hb
 
 end Dagrt.Controller
